@@ -259,10 +259,17 @@ func runC08(c *Ctx) {
 					if !hasTrunc(as.Node) || !g.Dominates(as.Loc, op.Loc) && !g.Reaches(as.Loc, op.Loc) {
 						continue
 					}
-					for _, a := range g.AtomsAt(as.Loc) {
-						if be, isB := ast.Unparen(a.Expr).(*ast.BinaryExpr); isB && sizeParam != nil && core.UsesObj(info, be.Y, sizeParam) &&
-							len(core.CallsTo(info, be.X, false, "io/fs.FileInfo.Size")) == 1 &&
-							((be.Op == token.GTR || be.Op == token.NEQ || be.Op == token.GEQ) && a.Val) {
+					for _, a := range factsAt(info, f.Body, g, as.Loc) {
+						be, isB := ast.Unparen(a.Expr).(*ast.BinaryExpr)
+						if !isB || sizeParam == nil || !a.Val {
+							continue
+						}
+						x, op, y := be.X, be.Op, be.Y
+						if core.UsesObj(info, x, sizeParam) { // size < info.Size()
+							x, y, op = y, x, flip(op)
+						}
+						if core.UsesObj(info, y, sizeParam) && len(core.CallsTo(info, x, false, "io/fs.FileInfo.Size")) == 1 &&
+							(op == token.GTR || op == token.NEQ || op == token.GEQ) {
 							ok = true
 						}
 					}
@@ -285,7 +292,7 @@ func runC08(c *Ctx) {
 			detail := "no successful open of GetFile(d) dominates the copy"
 			for _, op := range opens {
 				oc := op.Node.(*ast.CallExpr)
-				gf, isCall := ast.Unparen(oc.Args[0]).(*ast.CallExpr)
+				gf, isCall := resolveLocal(info, f.Body, oc.Args[0]).(*ast.CallExpr)
 				if !isCall || core.CalleeName(info, gf) != blobPkg+".DiskCache.GetFile" || dParam == nil || !core.UsesObj(info, gf.Args[0], dParam) {
 					continue
 				}
@@ -302,7 +309,7 @@ func runC08(c *Ctx) {
 				sizeOK := false
 				for _, st := range g.FindCalls("os.File.Stat") {
 					if se, isSel := st.Node.(*ast.CallExpr).Fun.(*ast.SelectorExpr); isSel && core.UsesObj(info, se.X, fileVar) {
-						if iv := core.ResultVar(info, st.Top, st.Node.(*ast.CallExpr), 0); iv != nil && core.UsesObj(info, call.Args[3], iv) {
+						if iv := core.ResultVar(info, st.Top, st.Node.(*ast.CallExpr), 0); iv != nil && (core.UsesObj(info, call.Args[3], iv) || core.UsesObj(info, resolveLocal(info, f.Body, call.Args[3]), iv)) {
 							if s, _ := g.OnSuccessOf(st, cp.Loc); s {
 								sizeOK = true
 							}
